@@ -4,7 +4,8 @@ claim("C15", "dominators / control dependence with normalised relations on MIR; 
       "Every clause of the statement (argument types, exact-once consumption, nothing left over at return, agreement at merges, "
       "branch alignment, dup/drop only where allowed, frame/ap state) has a rejection guard on every path to acceptance: the test "
       "compares the right operands with the right relation, its rejecting edge cannot fall through, it cannot be bypassed, and "
-      "consumption is a removing map operation. Here the guards are the property, so the claim is the full acceptance discipline; "
+      "consumption is a removing map operation; the two records of a function's parameter types (params, signature) are compared before acceptance "
+      "(one genuine defect found by that rule was repaired in /repo, fix: commit 808a128). Here the guards are the property, so the claim is the full acceptance discipline; "
       "that libfunc signatures describe the generated code is assumed.",
       "trusted: rustc MIR + trait resolution, the fact dumper, rules/guards.py; assumes callee semantics of std/indexmap/itertools",
       "DESIGN.md section 4, C15")
@@ -98,7 +99,7 @@ claim("C08", "path rules on MIR (guard obligations on the demand-analysis callba
       "DesnappingANonCopyableType unless copy / drop / destruct / panic-destruct applies with the right impl-function pairing; the analyzer "
       "introduces every statement's outputs, uses its inputs and merges with the panic branch at every panicable call under no further condition; and every call "
       "leading to a Sierra-program query is dominated by the success edge of the diagnostics gate (ensure / ensure_diagnostics / !check) or "
-      "lies in a function all of whose callers are, except documented-precondition entry points." + DECIDES +
+      "lies in a function all of whose callers are, except documented-precondition entry points; the per-function lowering-diagnostics query asks every analysis it consults about its own function." + DECIDES +
       " Of the first sentence only this is decided: the variable-usage analysis that gives closures their captures and loop functions their "
       "parameters reaches every child expression of every expression kind. Totality of the back end on error-free programs is otherwise not decided. "
       "One genuine defect found by that rule (a coupon argument was not walked) was repaired in /repo (fix: commit d7f6deb).",
